@@ -17,37 +17,66 @@ A_FW = ["A9 commands are JSON objects with string identifiers", "A10 Autobahn ca
         "A12 log.msg/log.err are effect-free (arguments not evaluated)", "A14 generate_mailbox_id() is fresh",
         "A16 blur_usage is None or >= 1"]
 
-SPLIT = {}   # qual -> number of path chunks (parallelism for big functions)
+SPLIT = {"server_websocket.WebSocketServer.onMessage": 14, "server_websocket.WebSocketServer.handle_close": 6,
+         "server.AppNamespace.claim_nameplate": 4, "server.Mailbox.close": 3, "server.AppNamespace.prune": 3,
+         "server.AppNamespace.open_mailbox": 2, "server_websocket.WebSocketServer.handle_claim": 2,
+         "server_websocket.WebSocketServer.handle_open": 2}   # qual -> number of path chunks
 
 from contracts import census as CENSUS     # noqa: E402
 from contracts import lemmas as LEMMAS     # noqa: E402
 
-PROPS = {
-    "C04": {
-        "level": "proof",
-        "census": [CENSUS.get_nameplate_ids_callers],
-        "lemmas": [],
-        "assumptions": A_PY + A_SQL[:1] + ["A14"],
-        "paper_steps": ["induction over events: `allocated` is sent by handle_allocate after allocate_nameplate returned"],
-        "explanation": "",
-    },
-    "C15": {
-        "level": "proof",
-        "census": [CENSUS.retirement_sites],
-        "lemmas": [LEMMAS.sorted_lemmas],
-        "assumptions": A_PY + A_SQL + ["A16"],
-        "paper_steps": ["C15.count: the double sum of listener-set sizes equals the number of subscribed connections (H3-H5)",
-                        "induction over events for 'objects still alive produce none'"],
-    },
-    "C16": {
-        "level": "proof",
-        "census": [CENSUS.usage_timestamp_writers],
-        "lemmas": [LEMMAS.sorted_lemmas],
-        "assumptions": A_PY + A_SQL[:1] + ["A16", "A2: timestamps are reals, x // b is floor division on reals"],
-        "paper_steps": [],
-    },
-}
+from contracts import tap as TAP           # noqa: E402
 
+DBFUNCS = ["server.Mailbox.open", "server.Mailbox._touch", "server.Mailbox.get_messages", "server.Mailbox._add_message",
+           "server.Mailbox.add_message", "server.Mailbox.close", "server.AppNamespace._get_nameplate_ids",
+           "server.AppNamespace._add_mailbox", "server.AppNamespace.open_mailbox", "server.AppNamespace.claim_nameplate",
+           "server.AppNamespace.allocate_nameplate", "server.AppNamespace.release_nameplate", "server.AppNamespace.prune",
+           "server.AppNamespace.log_client_version", "server.AppNamespace._summarize_nameplate_and_store",
+           "server.AppNamespace._summarize_mailbox_and_store"]
+INDUCTION = "induction over events (connect, cmd, disconnect, sweep, restart): Inv holds initially, every event handler requires and re-establishes it"
+
+PROPS = {
+    "C01": {"census": [CENSUS.messages_writers], "assumptions": A_PY + A_SQL + A_FW,
+            "paper_steps": [INDUCTION, "restart: C01 is stated over the database only (A8)"]},
+    "C02": {"assumptions": A_PY + A_SQL + A_FW, "conditioned_on": ["F1"],
+            "paper_steps": [INDUCTION, "Sub(a,m) is the listener set of the one registered Mailbox object (GH4, GH5, H1-H3)"]},
+    "C03": {"lemmas": [LEMMAS.distinct_mailboxes], "assumptions": A_PY + A_SQL + ["A14 fresh mailbox ids"],
+            "paper_steps": [INDUCTION, "ids of retired incarnations differ from new ones by A14"]},
+    "C04": {"census": [CENSUS.get_nameplate_ids_callers], "assumptions": A_PY + A_SQL[:1] + ["A14"],
+            "paper_steps": [INDUCTION]},
+    "C05": {"assumptions": A_PY + A_SQL + A_FW + ["A15 monotone clock; no stored arrival time is later than a clock read"],
+            "paper_steps": [INDUCTION, "C05.at_most_two: a side is subscribed / told the id only on a non-crowded exit (<= 2 side rows), and side rows of a live mailbox or nameplate are only ever added (delete_complete clauses): so at most two sides are ever granted"]},
+    "C06": {"functions_all": DBFUNCS, "assumptions": A_PY + A_SQL, "conditioned_on": ["F2"],
+            "paper_steps": ["C06.noninterference: every statement's effect is given exactly (is_insert / is_update / is_delete with predicates keyed by the app, or by ids that the invariants I2, I6, I7 tie to the app), no_exception obligations use only invariants: partitioned state gives trace equality (two-line lemma, DESIGN 9)",
+                            "stored rows are compared up to renaming of rowids / the AUTOINCREMENT nameplates.id"]},
+    "C07": {"assumptions": A_PY + A_SQL, "paper_steps": [INDUCTION]},
+    "C08": {"assumptions": A_PY + A_SQL + A_FW, "paper_steps": [INDUCTION]},
+    "C09": {"census": [CENSUS.pragmas, CENSUS.send_is_only_emitter], "assumptions": A_PY + A_SQL + A_FW,
+            "paper_steps": ["not in_tx means the file equals the state the server acts on (A7, A8)"]},
+    "C10": {"census": [CENSUS.pragmas], "lemmas": [LEMMAS.drains], "assumptions": A_PY + A_SQL,
+            "not_covered": ["the crash-resume compositions (re-sent claim/release/open/close reach the same state) are not machine-checked; the per-function idempotence clauses (noop / existing row untouched) are"],
+            "paper_steps": ["Recoverable = I1-I7, I8a, I9a holds at every commit point; every event handler is verified under exactly these invariants, so a restarted server runs on them without internal errors",
+                            "C10.drains: see lemma"]},
+    "C12": {"census": [TAP.constants], "lemmas": [LEMMAS.timing], "assumptions": A_PY + A_SQL + ["A11 TimerService calls expire every P seconds", "A15"],
+            "conditioned_on": ["F1"], "paper_steps": [INDUCTION, "has_listeners <=> Sub non-empty (GH4, GH5)"]},
+    "C13": {"census": [TAP.constants], "lemmas": [LEMMAS.drains, LEMMAS.timing],
+            "assumptions": A_PY + A_SQL + ["A11", "A15", "A5: a failing sweep is modelled as prune_all_apps raising any Exception at any point"],
+            "paper_steps": [INDUCTION, "liveness is decided as safety: the sweep whose cutoff is at or past a mailbox's last activity deletes it"]},
+    "C15": {"census": [CENSUS.retirement_sites], "lemmas": [LEMMAS.sorted_lemmas], "assumptions": A_PY + A_SQL + ["A16"],
+            "conditioned_on": ["F1"],
+            "paper_steps": ["C15.count: the double sum of listener-set sizes equals the number of subscribed connections (GH4, GH5, H3)",
+                            "one record per retirement in prune: one per loop iteration (loop step clauses), one iteration per retired object"]},
+    "C16": {"census": [CENSUS.usage_timestamp_writers, TAP.constants], "lemmas": [LEMMAS.sorted_lemmas],
+            "assumptions": A_PY + A_SQL[:1] + ["A16", "A2: timestamps are reals, x // b is floor division on reals"], "paper_steps": []},
+    "C17": {"census": [CENSUS.send_is_only_emitter], "assumptions": A_PY + A_SQL + A_FW, "conditioned_on": ["F2", "F10"],
+            "paper_steps": [INDUCTION, "identifiers containing lone surrogates are outside A9 (DESIGN 11)"]},
+    "C18": {"census": [CENSUS.get_nameplate_ids_callers, CENSUS.allow_list_readers, TAP.constants],
+            "functions_all": ["server.AppNamespace.get_nameplate_ids", "server_websocket.WebSocketServer.handle_list"],
+            "assumptions": A_PY + A_SQL + A_FW,
+            "paper_steps": ["C18.config_independent: every contract is proved for symbolic allow_list / usage_db / blur_usage / log_requests, and no postcondition about the channel tables, the outboxes or connection state mentions them (except handle_list's answer): equal runs (DESIGN 9)"]},
+}
+for _p in PROPS.values():
+    _p.setdefault("level", "proof")
 
 # ---------------------------------------------------------------------------
 # known findings
@@ -61,7 +90,7 @@ def load_findings():
 
 def match_finding(findings, pid, name):
     for f in findings:
-        if f.get("status") != "open" or pid not in f["properties"]:
+        if f.get("status") != "open":
             continue
         for pat in f["obligations"]:
             if re.search(pat, name):
